@@ -716,3 +716,45 @@ Example ex_bodyless_hyps :
   reply_typed p /\ p_buf p = [] /\ p_status p = [] /\ p_ctx p = [] /\
   4 + N.of_nat (length (reply_body p)) < 4294967296 /\ N.of_nat (length (p_desc p)) < 4294967296.
 Proof. vm_compute. repeat split. Qed.
+
+(* ---------- a whole connection under a handle timeout: every request has its own handler, its own goroutine running
+   Invoke and its own deadline; each of them runs under any schedule, and the handlers' writes reach the socket in any
+   interleaving ---------- *)
+Section ConnectionSchedules.
+  Variable dispatch : request -> hrun.
+
+  (* one handler: the request, its queueing time, the schedule, the state it ends in, what it has written *)
+  Definition handler_run : Type := (request * N * list hlabel * hstate * list reply)%type.
+  Definition run_ok (t : handler_run) : Prop :=
+    let '(r, q, ls, s, w) := t in
+    hrun_labels r (inv_reply dispatch r q) hinit ls = Some s /\ s_written s = Some w.
+  Definition run_request (t : handler_run) : request := let '(r, _, _, _, _) := t in r.
+  Definition run_written (t : handler_run) : list reply := let '(_, _, _, _, w) := t in w.
+
+  Lemma run_written_length t : run_ok t -> length (run_written t) = if oneway (run_request t) then 0%nat else 1%nat.
+  Proof.
+    destruct t as [[[[r q] ls] s] w]. cbn. intros [H Hw]. destruct (oneway r) eqn:W.
+    - rewrite (schedules_oneway r _ ls s H W w Hw). reflexivity.
+    - destruct (served_schedules_twoway dispatch r q ls s H W w Hw) as (x & -> & _). reflexivity.
+  Qed.
+
+  Theorem connection_schedules (ts : list handler_run) (out : list reply) :
+    Forall run_ok ts -> interleave (map run_written ts) out ->
+    length out = length (filter (fun t => negb (oneway (run_request t))) ts) /\
+    forall x, In x out -> exists t, In t ts /\ oneway (run_request t) = false /\
+                                    p_id x = q_id (run_request t) /\ p_ver x = q_ver (run_request t) /\
+                                    p_ptype x = q_ptype (run_request t).
+  Proof.
+    intros Hok Hil. apply interleave_perm in Hil. split.
+    - rewrite (Permutation_length Hil). clear Hil. induction Hok as [|t ts Ht _ IH]; [reflexivity|].
+      cbn [map concat filter]. rewrite app_length, IH, (run_written_length t Ht).
+      destruct (oneway (run_request t)); reflexivity.
+    - intros x Hx. apply (Permutation_in _ Hil) in Hx. apply in_concat in Hx. destruct Hx as (w & Hw & Hxw).
+      apply in_map_iff in Hw. destruct Hw as (t & <- & Ht). exists t. split; [exact Ht|].
+      rewrite Forall_forall in Hok. specialize (Hok t Ht).
+      destruct t as [[[[r q] ls] s] w]. cbn in *. destruct Hok as [H Hw]. destruct (oneway r) eqn:W.
+      + rewrite (schedules_oneway r _ ls s H W w Hw) in Hxw. destruct Hxw.
+      + destruct (served_schedules_twoway dispatch r q ls s H W w Hw) as (y & -> & _ & Hid).
+        destruct Hxw as [<-|[]]. split; [reflexivity|exact Hid].
+  Qed.
+End ConnectionSchedules.
